@@ -19,6 +19,8 @@
 (*                "multiq"  2..3 questions, with and without a record          *)
 (*                "types"   every type with a name in its RDATA layout: the    *)
 (*                          name equal to / one label below an earlier owner   *)
+(*                "first"   per type and RDATA name field: a suffix first seen in *)
+(*                          that field, needed by later owners / NS / MX names  *)
 (*                "pad"     a TXT record pushes a first occurrence to offset   *)
 (*                          16382..16385 (thorough: 16370..16395)              *)
 EXTENDS Gen_WireRR, Compress
@@ -70,6 +72,30 @@ TypesMsg2(t, variant) ==
       nm == IF variant = 2 THEN << L(67) >> \o BAX ELSE qn IN
   Msg(H0, << QOf(qn, t) >>, << A4(qn, 1), RR(Tail(qn), t, 1, Ttl1h, NameF(t, nm)) >>, <<>>, <<>>)
 
+\* Mode "first": a suffix (s.u.) is FIRST seen inside RDATA name field number j of a record of type t -- whatever the kind of the
+\* field: the packer notes every name for later use -- and is then needed by later owners and RFC 1035 RDATA names.
+\* One case per (type, name field); name fields before j hold an unrelated name.
+SU  == << L(115), L(117) >>                                   \* s.u.
+NSU == << L(110) >> \o SU                                     \* n.s.u.
+XV  == << L(120), L(118) >>                                   \* x.v.
+NameIdx(t) == SortedSeq({ i \in 1..Len(FieldsOf(t)) : FieldsOf(t)[i].k \in {"name", "cname", "names", "gateway"} })
+NameFJ(t, j) ==
+  LET es == FieldsOf(t)  base == Fix(es, BaseF(es))
+      pos(n) == CHOOSE i \in 1..Len(es) : es[i].n = n
+      nm(n) == IF pos(n) < j THEN XV ELSE NSU
+  IN [n \in DOMAIN base |->
+        IF es[pos(n)].k \in {"name", "cname", "gateway"} THEN nm(n)
+        ELSE IF es[pos(n)].k = "names" THEN << nm(n), << L(107) >> \o nm(n) >>
+        ELSE IF es[pos(n)].k = "bitmap0" THEN <<>>
+        ELSE IF \E i \in 1..Len(es) : es[i].k = "gateway" /\ es[i].of = n THEN 3
+        ELSE base[n]]
+FirstMsg(t, j) ==
+  Msg(H0, << QOf(<< L(113) >>, t) >>,
+      << RR(<< L(111) >>, t, 1, Ttl1h, NameFJ(t, j)),
+         RR(SU, 2, 1, Ttl1h, [Ns |-> << L(109) >> \o SU]),                       \* s.u. NS m.s.u.
+         RR(NSU, 15, 1, Ttl1h, [Preference |-> 1, Mx |-> SU]),                   \* n.s.u. MX s.u.
+         RR(<< L(107) >> \o NSU, 5, 1, Ttl1h, [Target |-> XV]) >>, <<>>, <<>>)   \* k.n.s.u. CNAME x.v.
+
 \* TXT RDATA of exactly r octets (r >= 2)
 TxtOf(r) == LET q == r \div 256  m == r % 256 IN
             [i \in 1..q |-> Rep(255, 112)] \o (IF m = 0 THEN <<>> ELSE << Rep(m - 1, 113) >>)
@@ -94,12 +120,15 @@ CInit ==
      \/ CMode = "multiq" /\ \E a \in 1..NFam, b \in 1..NFam, c \in 0..NFam, w \in 0..1, d \in 0..1 :
           /\ CInShard(a + 3 * b + 7 * c + w + d) /\ cv = <<a, b, c, w, d>>
      \/ CMode = "types" /\ \E x \in 1..Len(NameTypes), variant \in 1..3 : cv = <<NameTypes[x], variant>>
+     \/ CMode = "first" /\ \E x \in 1..Len(NameTypes) : \E y \in 1..Len(NameIdx(NameTypes[x])) :
+          cv = <<NameTypes[x], NameIdx(NameTypes[x])[y]>>
      \/ CMode = "pad" /\ \E at \in (IF Tier = 0 THEN 16382..16385 ELSE 16370..16395) : cv = <<at>>
 CNext == UNCHANGED <<v, cv>>
 
 CCase == CASE CMode = "family" -> FamilyMsg(cv[1], cv[2], cv[3], cv[4], cv[5], cv[6], cv[7])
            [] CMode = "multiq" -> MultiQMsg(cv[1], cv[2], cv[3], cv[4])
            [] CMode = "types"  -> TypesMsg2(cv[1], cv[2])
+           [] CMode = "first"  -> FirstMsg(cv[1], cv[2])
            [] CMode = "pad"    -> PadMsg2(cv[1])
 
 \* which names get the other spelling: none / the last record's owner / the first question
